@@ -274,6 +274,8 @@ def run(facts, rep, tier):
         m = [n for n, _ in nodes(h["body"], "match") if n.get("src") == "normal" and any("TraitBoundModifier" in x for a in n["arms"] for x in pat_top_variants(a["pat"]))]
         if rep.floor("C15.D4", "modifier table", len(m), 1):
             got = {}
+            from lib import table_is_plain
+            table_is_plain(rep, "C15.D4", "trait-modifier", m[0])
             for a in m[0]["arms"]:
                 for t in pat_top_variants(a["pat"]):
                     got[t.split("::")[-1]] = src(block_last(a["body"]))
